@@ -59,9 +59,19 @@ GEN = {"M": [("M*2", 2.0), ("M/5", 0.2)], "L": [("L*10", 10.0), ("L/3", 1.0 / 3.
 FLOOR = 1e-3          # |a-b| <= tol * (max(|a|,|b|) + FLOOR * S), S = largest magnitude of the field over the profile
 GUD_FACTOR = 0.750024322   # documented in guderley/ramsey.py: t_C = 0.750024322 (t_L + 1)
 
-# tolerances: class of the family (x_C08_dims: tol) ; measured worst residuals of the unchanged code over the thorough graph are noted
-# next to each family in TOL_NOTE below
-TOL_NOTE = {}
+# tolerances live in xpmc/x_C08_dims.py (field `tol` of each family).  Worst mismatch of the unchanged code over the thorough graph
+# (1764 roots, words <= 3, 2026-09-26), findings excluded:
+TOL_NOTE = {
+    "closed forms, tol 1e-11": "Noh 9.9e-16, Noh2 4.9e-16, Cog1-21 <= 8.6e-15, EHEP (lattice, front-1e-3) 1e-15, Kenamond1-3 <= 2.2e-15, "
+                               "CylindricalExpansion 1.0e-14",
+    "Blake, tol 1e-10": "1.9e-12 (exp/cos cancellation near the wave front)",
+    "Mader, tol 1e-10": "2.9e-13 (differences of powers in the cell average)",
+    "heat series, tol 1e-10": "PlanarSandwich 6.4e-13, Half/Hot 6e-16, Hutchens1 5.8e-15, Rod1D special BCs 1e-15",
+    "EPpiston, tol 1e-9": "1.3e-13 (fsolve)", "Guderley, tol 1e-9": "2.3e-13 (solve_ivp to the same similarity coordinate)",
+    "Sedov, tol 1e-9, floor 0.1": "7.2e-11 (fminbound on a squared residual; 3001-point interpolation grid)",
+    "IGEOS tol 1e-10 / GenEOS tol 1e-8": "at the identity and for O(1) state magnitudes 3e-12 / 1e-9; everything above is the recorded finding "
+                                         "riemann-absolute-root-tolerances (reduced oracle: tolerances re-expressed in node units)",
+}
 
 
 def preimport():
